@@ -1071,7 +1071,9 @@ class SamplingMethod(DirectMethod):
                 value = ca.evalf(expr)
             else:
                 expr = ca.hcat([self.eval_at_control(stage, expr, k) for k in list(range(self.N))+[-1]]) # HOT line
-                value = DM(opti.debug.value(expr, opti_initial))
+                value = ca.reshape(DM(opti.debug.value(expr, opti_initial)), expr.shape) # one column per node
+                # Scalar expression for a vector-valued symbol: repeated to fit
+                if value.shape[0]==1 and var.is_column() and not var.is_scalar(): value = repmat(value, var.shape[0], 1)
             # Row vector if vector
             if value.is_column() and var.is_scalar(): value = value.T
             if var in self.signals:
